@@ -237,6 +237,8 @@ CHECKS = {
        "objects through the handshake (C01_fresh_v311_mixed_sequence, C01_fresh_v311_two_way_mixed_sequence); "
        "the v5.0 mixed sequence - a QoS 0 publication takes no Receive Maximum slot and its only precondition is the peer's Maximum Packet "
        "Size; both accounts at zero again afterwards (C01_pair_mixed_sequence_exactly_once_v5, C01_pair_qos0_step_v5, Conn/PairSeqMixed5.v); "
+       "v5.0 with either side publishing each item, all four accounts at zero after every exchange, and end to end from fresh v5.0 objects "
+       "(C01_two_way_mixed_sequence_exactly_once_v5, C01_fresh_v5_two_way_mixed_sequence, Conn/PairSeqMixed25.v, PairSeqMixedFresh5.v); "
        "(1v5) v5.0 WITH SEVERAL EXCHANGES IN FLIGHT: the invariant adds the Receive Maximum accounts (sender's count = exchanges in "
        "flight <= the peer's limit; receiver's outstanding set = its handled set), the quota is never exceeded, and after the drain the "
        "vacancy is the full maximum (C01_pair_concurrent_exactly_once_v5); (1b) THE SAME ACROSS TRANSPORT LOSS - persistent sessions, one more action 'the transport "
@@ -272,7 +274,7 @@ CHECKS = {
        "the correspondence; as a statement about ALL histories it is FALSE of the faithful model and of the code, and its refutation is "
        "proved, and so are, BETWEEN TWO LIBRARY ENDPOINTS, 'the counter is the number of exchanges in flight, never above the peer's "
        "Receive Maximum, no step is Receive Maximum exceeded, and the vacancy returns to M' for every schedule with several exchanges in "
-       "flight (C12_counter_is_exchanges_in_flight; with both sides publishing at once C12_two_way_counters) and for every sequential run (C12_vacancy_returns_after_sequence; with manual responses C12_vacancy_returns_after_manual_sequence; with QoS 0 publications in between, which take no slot on either side: C12_qos0_takes_no_slot, C12_vacancy_returns_after_mixed_sequence, Conn/PairSeqMixed5.v) (C12_count_exact_refuted_*: three histories of a fresh object inside the application contract after which the vacancy is the "
+       "flight (C12_counter_is_exchanges_in_flight; with both sides publishing at once C12_two_way_counters) and for every sequential run (C12_vacancy_returns_after_sequence; with manual responses C12_vacancy_returns_after_manual_sequence; with QoS 0 publications in between, which take no slot on either side: C12_qos0_takes_no_slot, C12_vacancy_returns_after_mixed_sequence, Conn/PairSeqMixed5.v; either side publishing, all four accounts: C12_four_accounts_return_after_two_way_mixed_sequence, Conn/PairSeqMixed25.v) (C12_count_exact_refuted_*: three histories of a fresh object inside the application contract after which the vacancy is the "
        "full maximum while a stored, accepted PUBLISH of this connection is still awaited) - these are the known findings F-12b, F-12c, "
        "F-12d, reported as KNOWN-FINDING; any other discrepancy is a violation.",
   ref="DESIGN.md §3 C12, §4 F-12b, §10.4 F-12c F-12d",
